@@ -15,8 +15,10 @@ finalize_inp_mut, finalize_inp_mall_mut, extract}`, `sanity_check`,
   script-path half of `construct_tap_witness`) and the interpreter
   (`Interpreter::from_txdata` + `iter`) are PARAMETERS (`Params.satisfy`,
   `Params.tapScriptWitness`, `Params.interp`).
-* Panics the property cares about are explicit: `Res.panic` (`psbt.inputs[index]`,
-  `unsigned_tx.input[index]`, `non_witness_utxo.output[vout]`).
+* Panics are explicit: `Res.panic`.  The only indexing expression left in the code is
+  `psbt.inputs[index]` (public entry points check the index or loop over `0..inputs.len()`);
+  `unsigned_tx.input[index]` and `non_witness_utxo.output[vout]` are `.get(..).ok_or(..)`
+  since the F8 / F8b repairs.
 
 No imports (core only): linked into the driver.
 -/
@@ -171,7 +173,7 @@ structure Params where
 
 /-! ### `get_utxo`, `get_scriptpubkey`, `prevouts` -/
 
-/-- `finalizer::get_utxo`.  Three indexing expressions can panic. -/
+/-- `finalizer::get_utxo`.  Only `psbt.inputs[index]` can panic. -/
 def getUtxo (p : Psbt) (i : Nat) : Res InputErr TxOut :=
   match p.inputs[i]? with
   | none => .panic                                   -- `&psbt.inputs[index]`
@@ -182,10 +184,10 @@ def getUtxo (p : Psbt) (i : Nat) : Res InputErr TxOut :=
       match inp.nonWitnessUtxo with
       | some prev =>
         match p.tx.ins[i]? with
-        | none => .panic                             -- `psbt.unsigned_tx.input[index]`
+        | none => .err .missingUtxo                  -- `unsigned_tx.input.get(index).ok_or(MissingUtxo)`
         | some txin =>
           match prev.outputs[txin.vout]? with
-          | none => .panic                           -- `non_witness_utxo.output[vout as usize]` (F8)
+          | none => .err .missingUtxo                -- `output.get(vout).ok_or(MissingUtxo)`
           | some u => .ok u
       | none => .err .missingUtxo
 
@@ -281,7 +283,7 @@ def interpreterInpCheck (P : Params) (p : Psbt) (i : Nat) (utxos : List TxOut) (
     Res Err Unit :=
   ((getScriptPubkey p i).mapErr (Err.input · i)).bind fun spk =>
   match p.tx.ins[i]? with
-  | none => .panic                                   -- `psbt.unsigned_tx.input[index].sequence`
+  | none => .err .wrongInputCount                    -- `unsigned_tx.input.get(index).ok_or(WrongInputCount)`
   | some _ =>
     if P.interp p.tx i utxos spk wit ss then .ok () else .err (.input .interpreter i)
 
@@ -313,8 +315,8 @@ def finalizedInput (inp : Input) (wit : Wit) (ss : SS) : Input :=
     finalScriptSig := if ss.isEmpty then none else some ss
     finalScriptWitness := if wit.isEmpty then none else some wit }
 
-/-- `finalizer::finalize_input` -/
-def finalizeInput (P : Params) (p : Psbt) (i : Nat) (mall : Bool) : Res Err Psbt :=
+/-- body of `finalizer::finalize_input` after the count check -/
+def finalizeInputCore (P : Params) (p : Psbt) (i : Nat) (mall : Bool) : Res Err Psbt :=
   match p.inputs[i]? with
   | none => .panic                                   -- `psbt.inputs[index]`
   | some inp =>
@@ -322,6 +324,10 @@ def finalizeInput (P : Params) (p : Psbt) (i : Nat) (mall : Bool) : Res Err Psbt
     else
       (finalizeInputHelper P p i mall).bind fun r =>
         .ok { p with inputs := p.inputs.set i (finalizedInput inp r.1 r.2) }
+
+/-- `finalizer::finalize_input`: the input counts are compared first (`WrongInputCount`) -/
+def finalizeInput (P : Params) (p : Psbt) (i : Nat) (mall : Bool) : Res Err Psbt :=
+  if p.tx.ins.length != p.inputs.length then .err .wrongInputCount else finalizeInputCore P p i mall
 
 /-! ### the public entry points -/
 
@@ -355,9 +361,8 @@ def finalizeInpMut (P : Params) (p : Psbt) (i : Nat) : MutOut Err :=
   | .err e => ⟨p, .err e⟩
   | .panic => ⟨p, .panic⟩
 
-/-- the `allow_mall` argument `finalize_inp_mall_mut` passes (sic: `/*allow_mall*/ false`,
-src/psbt/mod.rs) -/
-def inpMallFlag : Bool := false
+/-- the `allow_mall` argument `finalize_inp_mall_mut` passes (src/psbt/mod.rs) -/
+def inpMallFlag : Bool := true
 
 /-- `PsbtExt::finalize_inp_mall_mut` -/
 def finalizeInpMallMut (P : Params) (p : Psbt) (i : Nat) : MutOut Err :=
